@@ -19,7 +19,7 @@ FUNCS = SIM_FUNCS + ["acnportal.acnsim.network.current.Current.*", "acnportal.al
                      "acnportal.algorithms.utils.infrastructure_constraints_feasible", "acnportal.algorithms.preprocessing.*", "acnportal.algorithms.postprocessing.format_array_schedule"]
 ASSUMPTIONS = SIM_ASSUMPTIONS + [
     "permutations of station registration / constraint insertion / session listing are enumerated (one job each); time shift k in {1,2}",
-    "sorted scheduler: arrivals pairwise distinct (decisions do not hinge on ties)",
+    "sorted scheduler: arrivals pairwise distinct (decisions do not hinge on ties); with uninterrupted charging departures pairwise distinct too (minimum rates are granted in order of remaining time)",
     "behaviour across interpreter processes (PYTHONHASHSEED) is outside the claim",
 ]
 
@@ -38,6 +38,8 @@ def _scenario(cx, stations, station_of, H, battery, n_cons, distinct, req_lo=0):
                 cx.assume(or_(le(times[i][1], times[j][0]), le(times[j][1], times[i][0])))
             if distinct:
                 cx.assume(ne(times[i][0], times[j][0]))
+            if distinct == "arrivals+departures":  # uninterrupted charging orders sessions by remaining time as well
+                cx.assume(ne(times[i][1], times[j][1]))
     bp = []
     for i in range(len(station_of)):
         if battery == "huge":
@@ -57,6 +59,7 @@ CONS = [  # (name, coefficients by station index)
     ("c_mixed", (1, -0.5, 0)),
     ("c_last", (0, 1, 0.25)),
 ]
+FEEDERS = [("feeder_A", (1, 0, 1)), ("feeder_B", (0, 1, 0))]  # two independent feeders (stations 0,2 / station 1)
 
 
 def _run(cx, sc, stations, station_of, battery, sched, n_cons, st_perm, c_perm, s_perm, k, H):
@@ -66,7 +69,7 @@ def _run(cx, sc, stations, station_of, battery, sched, n_cons, st_perm, c_perm, 
         sid, kind, V, ph = stations[j]
         net.register_evse(make_evse(sid, kind), V, ph)
     for ci in c_perm:
-        name, coeffs = CONS[ci]
+        name, coeffs = (FEEDERS if sched == "fcfs_unint" else CONS)[ci]
         cur = A.Current({stations[j][0]: coeffs[j] for j in st_perm[::-1] if j < len(coeffs) and coeffs[j] != 0})
         net.add_constraint(cur, sc["limits"][ci], name=name)
     evs = []
@@ -101,6 +104,35 @@ def _run(cx, sc, stations, station_of, battery, sched, n_cons, st_perm, c_perm, 
                 return out
 
         algo = Algo()
+    elif sched == "scripted_mr2":
+        from acnportal.algorithms import BaseAlgorithm
+
+        class Algo2(BaseAlgorithm):
+            """open-loop scheduler: recomputes every 2 periods, returns 2 periods, only for active sessions; what it
+            returns depends on WHEN it is called (relative to the scenario's time origin)"""
+
+            def __init__(self):
+                super().__init__()
+                self.max_recompute = 2
+
+            def schedule(self, active_sessions):
+                t = self.interface.current_time
+                out = {}
+                for s in active_sessions[::-1]:
+                    row = []
+                    for off in range(2):
+                        key = (s.station_id, t - k, off)
+                        if key not in sc["table"]:
+                            sc["table"][key] = cx.real("q_%s_%d_%d" % (s.station_id, t - k, off), lo=0, hi=32)
+                        row.append(sc["table"][key])
+                    out[s.station_id] = row
+                return out
+
+        algo = Algo2()
+    elif sched == "fcfs_unint":
+        from acnportal.algorithms import SortedSchedulingAlgo, first_come_first_served
+
+        algo = SortedSchedulingAlgo(first_come_first_served, uninterrupted_charging=True)
     elif sched == "uncontrolled":
         from acnportal.algorithms import UncontrolledCharging
 
@@ -124,7 +156,7 @@ def _run(cx, sc, stations, station_of, battery, sched, n_cons, st_perm, c_perm, 
 
 def h_pair(cx, stations, station_of, H, battery, sched, n_cons, st_perm, c_perm, s_perm, k, req_lo=0):
     env.install(cx)
-    sc = _scenario(cx, stations, station_of, H, battery, n_cons, distinct=(sched == "fcfs"), req_lo=req_lo)
+    sc = _scenario(cx, stations, station_of, H, battery, n_cons, distinct=("arrivals+departures" if sched == "fcfs_unint" else sched.startswith("fcfs")), req_lo=req_lo)
     ident = tuple(range(len(stations)))
     base = _run(cx, sc, stations, station_of, battery, sched, n_cons, ident, tuple(range(n_cons)), tuple(range(len(station_of))), 0, H)
     other = _run(cx, sc, stations, station_of, battery, sched, n_cons, st_perm, c_perm, s_perm, k, H)
@@ -172,7 +204,17 @@ def jobs(tier):
         add(S2f, (0, 1), 2, "huge", "fcfs", 2, (1, 0), (1, 0), (1, 0), 0, cost=3, req_lo=50)
         add(S2f, (0, 1), 2, "huge", "fcfs", 1, (0, 1), (0,), (0, 1), 1, cost=3, req_lo=50)
         add(S2, (0, 1), 3, "ideal", "uncontrolled", 1, (1, 0), (0,), (1, 0), 1)
+        Sc = [("PS-B", "EVSE", 208, 0), ("PS-A", "EVSE", 240, 0)]
+        add(Sc, (0, 1), 3, "huge", "scripted_mr2", 1, (1, 0), (0,), (1, 0), 1)        # open-loop scheduler, shift
+        add(Sc, (0, 0), 3, "huge", "scripted_mr2", 0, (0, 1), (), (0, 1), 2)
+        for sp in ((1, 0, 2), (2, 1, 0)):
+            add(S3f, (0, 1, 2), 3, "huge", "fcfs_unint", 2, sp, (1, 0), (0, 1, 2), 0, cost=5, req_lo=50)
     else:
+        Sc = [("PS-B", "EVSE", 208, 0), ("PS-A", "EVSE", 240, 0)]
+        for k in (1, 2, 3):
+            add(Sc, (0, 1), 4, "ideal", "scripted_mr2", 1, (1, 0), (0,), (1, 0), k)
+        for sp in itertools.permutations(range(3)):
+            add(S3f, (0, 1, 2), 4, "huge", "fcfs_unint", 2, sp, (1, 0), (0, 1, 2), 0, cost=50, req_lo=50)
         for sp in itertools.permutations(range(3)):
             add(S3, (0, 1, 2), 3, "ideal", "scripted", 3, sp, (0, 1, 2), (0, 1, 2), 0)
             add(S3f, (0, 1, 2), 3, "ideal", "fcfs", 3, sp, (2, 0, 1), (0, 1, 2), 0, cost=3)
